@@ -79,12 +79,13 @@ fn pat(addr: u64, i: u64, salt: u64) -> u8 {
 
 impl M {
     fn area_of(&self, addr: u64, len: u64) -> Option<(u64, u64)> {
-        // valid iff [addr, addr+len) lies inside one area, without wrapping
-        let end = addr.checked_add(len)?;
+        // valid iff [addr, addr+len) lies inside one area; computed in 128 bits, so an access that
+        // ends exactly at 2^64 inside an area that ends there is valid, one that wraps is not
+        let end = addr as u128 + len as u128;
         self.areas
             .iter()
             .cloned()
-            .find(|(s, l)| *s <= addr && end as u128 <= *s as u128 + *l as u128 && (addr as u128) < *s as u128 + *l as u128)
+            .find(|(s, l)| *s <= addr && end <= *s as u128 + *l as u128 && (addr as u128) < *s as u128 + *l as u128)
     }
     fn addr_alphabet(&self) -> Vec<u64> {
         let mut v: Vec<u64> = vec![];
